@@ -9,7 +9,9 @@ from ..par import pmap
 from ..specs import locked_lists
 
 DOCUMENTED = {"ValueError", "TypeError", "UnsupportedAlgorithm", "PidRefsDoesNotExist"}
-BAD_ID = [None, "", " ", "a b", "a\tb", "a\n", " lead", "trail ", " "]
+BAD_ID = [None, "", " ", "a b", "a\tb", "a\n", " lead", "trail ", " ",
+          # whitespace outside ASCII: no-break space, em space, line separator, ideographic space, file separator
+          "abc\u00a0", "a\u2003b", "a\u2028b", "\u3000x", "a\x1cb"]
 BAD_ALGO = ["sha257", "", "md6", "SHA-999", "a b", "sha3256", "sha-3-256", "SHA_3_512", "sha3_2_56"]
 BAD_SIZE = [0, -1, "5", 1.5]
 BAD_DATA = [7, b"bytes", ["list"], "", "   ", "/nonexistent/file/xyz", None]
